@@ -24,8 +24,11 @@ package main
 
 import (
 	"bufio"
+	"bytes"
 	"fmt"
 	"os"
+	"os/exec"
+	"runtime/debug"
 	"strconv"
 	"strings"
 
@@ -192,6 +195,7 @@ func runOnce(mode string, dag []fetch) (out string) {
 			out = common.L("panic", common.QS(fmt.Sprint(p)))
 		}
 	}()
+	announce(mode)
 	p := processor(mode)
 	response := &resolve.GraphQLResponse{RawFetches: items(dag)}
 	if mode == "t" {
@@ -630,65 +634,266 @@ func parseCorpusLine(line string) (string, []fetch, error) {
 	return parts[0], dag, nil
 }
 
+// ---------------------------------------------------------------- crash isolation
+//
+// A stack overflow in the Processor (the unguarded nodeDependsOn recursion on a cyclic list) is a
+// fatal error: no recover, the process dies.  So the cases are observed in a CHILD process (same
+// binary, -child 1 -from I): for every case it first prints a header line with the input, then the
+// full result line.  When the child dies the parent knows the case (the header without a result),
+// reports it as (c08 KIND (dag ...) (crash MODE "reason")) -- spec clause no_crash, the fetch list is
+// the replay -- and starts a new child behind it, so the remaining cases still run.
+
+type caseGen struct {
+	next func() (kind string, dag []fetch, paths bool, ok bool)
+}
+
+func dagPrefix(kind string, dag []fetch, paths bool) string {
+	fs := []string{"dag"}
+	for _, f := range dag {
+		ds := make([]string, len(f.deps))
+		for i, d := range f.deps {
+			ds[i] = strconv.Itoa(d)
+		}
+		src := "-"
+		if f.cand {
+			src = common.L(strconv.Itoa(f.ds), strconv.Itoa(f.env))
+		}
+		if paths {
+			fs = append(fs, common.L("f", strconv.Itoa(f.id), common.L(ds...), src, quoteAll("rp", f.rp), quoteAll("mp", f.mp)))
+		} else {
+			fs = append(fs, common.L("f", strconv.Itoa(f.id), common.L(ds...), src))
+		}
+	}
+	return "(c08 " + kind + " " + common.L(fs...)
+}
+
+func generator(mode string, a map[string]string) *caseGen {
+	switch mode {
+	case "gen":
+		r := common.NewRand(common.ArgU64(a, "seed", 1))
+		n, i := common.ArgInt(a, "n", 1000), 0
+		return &caseGen{next: func() (string, []fetch, bool, bool) {
+			if i >= n {
+				return "", nil, false, false
+			}
+			i++
+			if r.Chance(1, 12) {
+				return "dup", genDup(r), false, true
+			}
+			return "dag", genDAG(r), false, true
+		}}
+	case "genp":
+		r := common.NewRand(common.ArgU64(a, "seed", 1) ^ 0x70617468)
+		n, i := common.ArgInt(a, "n", 1000), 0
+		return &caseGen{next: func() (string, []fetch, bool, bool) {
+			if i >= n {
+				return "", nil, false, false
+			}
+			i++
+			if r.Chance(1, 10) {
+				return "pathodd", genPaths(r, true), true, true
+			}
+			return "paths", genPaths(r, false), true, true
+		}}
+	case "corpus":
+		var lines []string
+		if f, err := os.Open(a["in"]); err == nil {
+			sc := bufio.NewScanner(f)
+			sc.Buffer(make([]byte, 1<<20), 1<<26)
+			for sc.Scan() {
+				line := sc.Text()
+				if strings.HasPrefix(line, "#") || strings.TrimSpace(line) == "" {
+					continue
+				}
+				lines = append(lines, line)
+			}
+			f.Close()
+		}
+		i := 0
+		return &caseGen{next: func() (string, []fetch, bool, bool) {
+			if i >= len(lines) {
+				return "", nil, false, false
+			}
+			line := lines[i]
+			i++
+			kind, dag, err := parseCorpusLine(line)
+			if err != nil {
+				fmt.Fprintln(os.Stderr, err, ":", line)
+				os.Exit(2)
+			}
+			return kind, dag, kind == "paths" || kind == "pathodd", true
+		}}
+	}
+	return nil
+}
+
+// currentMode: the organise mode the child is running (written to stderr before every Processor call)
+func child(mode string, a map[string]string) {
+	inChild = true
+	debug.SetMaxStack(48 << 20) // the recursion of a valid list is at most a few dozen frames deep
+	from := common.ArgInt(a, "from", 0)
+	g := generator(mode, a)
+	w := bufio.NewWriterSize(os.Stdout, 1<<16)
+	defer w.Flush()
+	for i := 0; ; i++ {
+		kind, dag, paths, ok := g.next()
+		if !ok {
+			return
+		}
+		if i < from {
+			continue
+		}
+		fmt.Fprintf(w, "H\t%d\t%s\n", i, dagPrefix(kind, dag, paths))
+		w.Flush()
+		var line string
+		if paths {
+			line = observePaths(kind, dag)
+		} else {
+			line = observe(kind, dag)
+		}
+		fmt.Fprintf(w, "L\t%d\t%s\n", i, line)
+		w.Flush()
+	}
+}
+
+const maxCrashes = 150
+
+func parent(mode string, a map[string]string, out *common.Out) {
+	self, err := os.Executable()
+	if err != nil {
+		self = os.Args[0]
+	}
+	from, crashes := 0, 0
+	for {
+		args := []string{mode}
+		for k, v := range a {
+			if k != "out" && k != "from" && k != "child" {
+				args = append(args, "-"+k, v)
+			}
+		}
+		args = append(args, "-child", "1", "-from", strconv.Itoa(from))
+		cmd := exec.Command(self, args...)
+		stdout, _ := cmd.StdoutPipe()
+		var errBuf tailBuffer
+		cmd.Stderr = &errBuf
+		if err := cmd.Start(); err != nil {
+			fmt.Fprintln(os.Stderr, "c08: cannot start the child process:", err)
+			os.Exit(2)
+		}
+		sc := bufio.NewScanner(stdout)
+		sc.Buffer(make([]byte, 1<<20), 1<<28)
+		pendingIdx, pendingHdr := -1, ""
+		for sc.Scan() {
+			parts := strings.SplitN(sc.Text(), "\t", 3)
+			if len(parts) != 3 {
+				continue
+			}
+			idx, _ := strconv.Atoi(parts[1])
+			switch parts[0] {
+			case "H":
+				pendingIdx, pendingHdr = idx, parts[2]
+			case "L":
+				out.Line(parts[2])
+				pendingIdx = -1
+				from = idx + 1
+			}
+		}
+		werr := cmd.Wait()
+		if werr == nil && pendingIdx < 0 {
+			return
+		}
+		if pendingIdx < 0 {
+			// died between two cases (or before the first header): nothing to attribute it to
+			fmt.Fprintln(os.Stderr, "c08: child process failed outside a case:", werr, errBuf.head())
+			os.Exit(3)
+		}
+		crashes++
+		out.Line(pendingHdr + " " + common.L("crash", errBuf.mode(), common.QS(errBuf.head())) + ")")
+		from = pendingIdx + 1
+		if crashes >= maxCrashes {
+			fmt.Fprintf(os.Stderr, "c08: %d cases killed the process; the cases from index %d on are not run\n", crashes, from)
+			return
+		}
+	}
+}
+
+// tailBuffer keeps the first KB of the child's stderr (the reason of a fatal error comes first; the
+// goroutine dump behind it is large) and the last MODE marker.
+type tailBuffer struct {
+	first []byte
+	carry []byte
+	last  string
+}
+
+// inChild: the process is a child; every Processor call is announced on stderr (C08MODE m)
+var inChild bool
+
+func announce(mode string) {
+	if inChild {
+		fmt.Fprintf(os.Stderr, "C08MODE %s\n", mode)
+	}
+}
+
+func (t *tailBuffer) Write(p []byte) (int, error) {
+	t.carry = append(t.carry, p...)
+	for {
+		j := bytes.IndexByte(t.carry, '\n')
+		if j < 0 {
+			if len(t.carry) > 1<<16 {
+				t.carry = t.carry[:0]
+			}
+			return len(p), nil
+		}
+		line := t.carry[:j+1]
+		if bytes.HasPrefix(line, []byte("C08MODE ")) {
+			t.last = strings.TrimSpace(string(line[8:]))
+		} else if len(t.first) < 1024 {
+			t.first = append(t.first, line[:min(len(line), 1024-len(t.first))]...)
+		}
+		t.carry = t.carry[j+1:]
+	}
+}
+
+func (t *tailBuffer) head() string {
+	s := string(t.first)
+	for _, key := range []string{"fatal error: ", "panic: "} {
+		if i := strings.Index(s, key); i >= 0 {
+			s = s[i:]
+			if j := strings.IndexByte(s, '\n'); j >= 0 {
+				s = s[:j]
+			}
+			return s
+		}
+	}
+	if j := strings.IndexByte(s, '\n'); j >= 0 {
+		s = s[:j]
+	}
+	return s
+}
+
+func (t *tailBuffer) mode() string {
+	if t.last == "" {
+		return "x"
+	}
+	return t.last
+}
+
 func main() {
 	if len(os.Args) < 2 {
 		fmt.Fprintln(os.Stderr, "usage: c08 gen -seed S -n N -out F | c08 genp -seed S -n N -out F | c08 corpus -in F -out F")
 		os.Exit(2)
 	}
 	a := common.Args(os.Args[2:])
+	mode := os.Args[1]
+	if mode != "gen" && mode != "genp" && mode != "corpus" {
+		fmt.Fprintln(os.Stderr, "unknown mode", mode)
+		os.Exit(2)
+	}
+	if a["child"] == "1" {
+		child(mode, a)
+		return
+	}
 	out := common.NewOut(a["out"])
 	defer out.Close()
-	switch os.Args[1] {
-	case "gen":
-		r := common.NewRand(common.ArgU64(a, "seed", 1))
-		n := common.ArgInt(a, "n", 1000)
-		for i := 0; i < n; i++ {
-			if r.Chance(1, 12) {
-				out.Line(observe("dup", genDup(r)))
-			} else {
-				out.Line(observe("dag", genDAG(r)))
-			}
-		}
-	case "genp":
-		r := common.NewRand(common.ArgU64(a, "seed", 1) ^ 0x70617468)
-		n := common.ArgInt(a, "n", 1000)
-		for i := 0; i < n; i++ {
-			if r.Chance(1, 10) {
-				out.Line(observePaths("pathodd", genPaths(r, true)))
-			} else {
-				out.Line(observePaths("paths", genPaths(r, false)))
-			}
-		}
-	case "corpus":
-		f, err := os.Open(a["in"])
-		if err != nil {
-			return
-		}
-		defer f.Close()
-		sc := bufio.NewScanner(f)
-		for sc.Scan() {
-			line := sc.Text()
-			if strings.HasPrefix(line, "#") || strings.TrimSpace(line) == "" {
-				continue
-			}
-			kind, dag, err := parseCorpusLine(line)
-			if err != nil {
-				fmt.Fprintln(os.Stderr, err, ":", line)
-				os.Exit(2)
-			}
-			if kind == "paths" || kind == "pathodd" {
-				if !terminates(completedForFilter(dag)) {
-					fmt.Fprintln(os.Stderr, "corpus case would overflow the Go stack (cyclic after completion):", line)
-					os.Exit(2)
-				}
-				out.Line(observePaths(kind, dag))
-				continue
-			}
-			if !terminates(dag) {
-				fmt.Fprintln(os.Stderr, "corpus case would overflow the Go stack (cyclic):", line)
-				os.Exit(2)
-			}
-			out.Line(observe(kind, dag))
-		}
-	}
+	parent(mode, a, out)
 }
